@@ -58,4 +58,6 @@ def _disabled_dep_witness():
             "strategy": "off", "gseed": 1, "interrupt": None, "fault": None}
 
 
-Run.corpus = [_disabled_dep_witness()]
+from run import witnesses2 as W2  # noqa: E402
+
+Run.corpus = [_disabled_dep_witness()] + W2.CONTROLS2
